@@ -524,3 +524,110 @@ Proof.
     cbn [pl_exec list_exec]. apply IH. destruct (step_sim l items op Hrep) as [H1 _]. exact H1. }
   specialize (H ops _ _ (init_rep an)). split; [exact (rep_wf _ _ H)|exact (rep_items _ _ H)].
 Qed.
+
+(* ---------------------------------------------------------------- the compaction step of iwlist_shift, both sides of its threshold *)
+(* !(start & 0xff): the new start offset is a multiple of 256 *)
+Lemma land255_mod : forall s, Nat.land s 255 = s mod 256.
+Proof. intros s. change 255 with (Nat.ones 8). rewrite Nat.land_ones. reflexivity. Qed.
+
+Definition pl_compacts (l : plist) : bool :=
+  Nat.eqb (Nat.land (pl_start l + 1) 255) 0 && ((pl_num l - 1) / 2 <? pl_start l + 1).
+
+Lemma pl_compacts_spec : forall l,
+  pl_compacts l = true <-> ((pl_start l + 1) mod 256 = 0 /\ (pl_num l - 1) / 2 < pl_start l + 1).
+Proof.
+  intros l. unfold pl_compacts. rewrite andb_true_iff, Nat.eqb_eq, Nat.ltb_lt, land255_mod. reflexivity.
+Qed.
+
+(* a shift of a non-empty list hands out the head element, read BEFORE the array is compacted; the remaining items
+   are the tail; the array is compacted (start = 0) exactly when the threshold condition holds, otherwise the start
+   offset advances by one; the allocation is never changed *)
+Theorem shift_compaction_exact : forall l x t, rep l (x :: t) ->
+  snd (pl_shift l) = (PL_OK, Some x) /\
+  rep (fst (pl_shift l)) t /\
+  pl_anum (fst (pl_shift l)) = pl_anum l /\
+  pl_start (fst (pl_shift l)) = (if pl_compacts l then 0 else pl_start l + 1).
+Proof.
+  intros l x t Hrep.
+  destruct (shift_sim l (x :: t) Hrep) as [Hr Ho]. cbn [list_step fst snd] in Hr, Ho.
+  split; [|split; [exact Hr|]].
+  - destruct (snd (pl_shift l)) as [rc v]. inversion Ho. reflexivity.
+  - destruct Hrep as [_ [_ [_ [Hil _]]]]. cbn [length] in Hil.
+    unfold pl_shift, pl_compacts.
+    destruct (Nat.eqb_spec (pl_num l) 0) as [Hz|Hnz]; [lia|].
+    destruct (Nat.eqb (Nat.land (pl_start l + 1) 255) 0 && ((pl_num l - 1) / 2 <? pl_start l + 1));
+      cbn [fst pl_anum pl_start]; split; reflexivity.
+Qed.
+
+(* ---------------------------------------------------------------- the order of "read the element" and "compact" matters *)
+(* the variant that reads array[index] AFTER the compaction (the round-2 seeded change; NOT the code) *)
+Definition pl_shift_late (l : plist) : plist * (plrc * slot) :=
+  if Nat.eqb (pl_num l) 0 then (l, (PL_OOB, None))
+  else
+    let index := pl_start l in
+    let start := pl_start l + 1 in
+    let num := pl_num l - 1 in
+    let l' := if Nat.eqb (Nat.land start 255) 0 && (num / 2 <? start)
+              then mkPL (s_move (pl_arr l) 0 start num) 0 num (pl_anum l)
+              else mkPL (pl_arr l) start num (pl_anum l) in
+    (l', (PL_OK, s_at (pl_arr l') index)).
+
+(* outside the window "compaction with more than start items left" the variant cannot be told from the code *)
+Theorem shift_late_same_outside_window : forall l, pl_wf l ->
+  pl_compacts l = false \/ pl_num l - 1 <= pl_start l -> pl_shift_late l = pl_shift l.
+Proof.
+  intros l [Hlen [Hbnd [Hpos Hsome]]] Hw. unfold pl_shift_late, pl_shift, pl_compacts in *.
+  destruct (Nat.eqb_spec (pl_num l) 0) as [Hz|Hnz]; [reflexivity|].
+  destruct (Nat.eqb (Nat.land (pl_start l + 1) 255) 0 && ((pl_num l - 1) / 2 <? pl_start l + 1)) eqn:Hc.
+  - destruct Hw as [Hw|Hw]; [discriminate|]. cbn [pl_arr]. f_equal. f_equal.
+    rewrite s_at_move by lia.
+    destruct (Nat.ltb_spec (pl_start l) 0) as [H0|H0]; [lia|].
+    destruct (Nat.ltb_spec (pl_start l) (0 + (pl_num l - 1))) as [H1|H1]; [lia|reflexivity].
+  - reflexivity.
+Qed.
+
+(* inside the window it returns the wrong element: 512 pushes, then the 256th shift *)
+Definition late_witness : plist :=
+  pl_exec (pl_init 0) (map (fun i => PLPush [Z.of_nat i]) (seq 0 512) ++ repeat PLShift 255).
+
+Theorem shift_late_refuted :
+  pl_wf late_witness /\ pl_compacts late_witness = true /\ pl_start late_witness = 255 /\ pl_num late_witness = 257 /\
+  snd (pl_shift late_witness) = (PL_OK, Some [255%Z]) /\
+  snd (pl_shift_late late_witness) = (PL_OK, Some [511%Z]).
+Proof.
+  split; [apply plist_state_refines_list|].
+  vm_compute. repeat split; reflexivity.
+Qed.
+
+(* ---------------------------------------------------------------- the same, for the states an API user can reach *)
+Lemma exec_rep : forall ops l items, rep l items -> rep (pl_exec l ops) (list_exec items ops).
+Proof.
+  induction ops as [|op t IH]; intros l items Hrep; [exact Hrep|].
+  cbn [pl_exec list_exec]. apply IH. destruct (step_sim l items op Hrep) as [H1 _]. exact H1.
+Qed.
+
+Theorem shift_compaction_reachable : forall an ops x t,
+  list_exec [] ops = x :: t ->
+  let l := pl_exec (pl_init an) ops in
+  snd (pl_shift l) = (PL_OK, Some x) /\
+  pl_items (fst (pl_shift l)) = t /\
+  pl_anum (fst (pl_shift l)) = pl_anum l /\
+  pl_start (fst (pl_shift l)) =
+    (if Nat.eqb ((pl_start l + 1) mod 256) 0 && ((pl_num l - 1) / 2 <? pl_start l + 1) then 0 else pl_start l + 1).
+Proof.
+  intros an ops x t Hx l.
+  assert (Hrep : rep l (x :: t)). { rewrite <- Hx. apply exec_rep. apply init_rep. }
+  destruct (shift_compaction_exact l x t Hrep) as [H1 [H2 [H3 H4]]].
+  split; [exact H1|]. split; [exact (rep_items _ _ H2)|]. split; [exact H3|].
+  rewrite H4. unfold pl_compacts. rewrite land255_mod. reflexivity.
+Qed.
+
+Theorem shift_late_window_reachable : forall an ops,
+  let l := pl_exec (pl_init an) ops in
+  (Nat.eqb ((pl_start l + 1) mod 256) 0 && ((pl_num l - 1) / 2 <? pl_start l + 1) = false \/ pl_num l - 1 <= pl_start l) ->
+  pl_shift_late l = pl_shift l.
+Proof.
+  intros an ops l Hw. apply shift_late_same_outside_window.
+  - apply plist_state_refines_list.
+  - unfold pl_compacts. rewrite land255_mod. exact Hw.
+Qed.
